@@ -980,6 +980,7 @@ func comparisonDispatch(c *Ctx) (cmp, plain *ast.FuncDecl) {
 type lexState struct {
 	consumed string
 	tkn      string // lexeme of the current constant token ("" = unset, "?" = non-constant)
+	brk      bool   // a break was executed: the rest of the enclosing case arm is skipped
 }
 
 type lexInterp struct {
@@ -1094,6 +1095,10 @@ func (li *lexInterp) execList(stmts []ast.Stmt, in []lexState) []lexState {
 	for _, s := range stmts {
 		var next []lexState
 		for _, st := range cur {
+			if st.brk {
+				next = append(next, st)
+				continue
+			}
 			n, d := li.exec(s, st)
 			next = append(next, n...)
 			done = append(done, d...)
@@ -1215,7 +1220,8 @@ func (li *lexInterp) exec(s ast.Stmt, st lexState) (cont, done []lexState) {
 			st.tkn = ""
 			return nil, []lexState{st}
 		}
-		return []lexState{st}, nil // break out of inner switch: handled by caller as fallthrough to end
+		st.brk = true // leaves the enclosing switch arm: the statements that follow in it are skipped
+		return []lexState{st}, nil
 	case *ast.IfStmt:
 		// forms: p.chr == K ; tkn == CONST ; tkn == CONST && p.chr == K ; other (unknown: explore both)
 		conj := splitAnd(x.Cond)
@@ -1306,6 +1312,9 @@ func (li *lexInterp) exec(s ast.Stmt, st lexState) (cont, done []lexState) {
 					}
 				}
 			}
+			for i := range outC {
+				outC[i].brk = false // a break inside this switch ended this switch only
+			}
 			return outC, outD
 		}
 		li.und = append(li.und, "switch form not understood at "+li.c.Pos(x.Pos()))
@@ -1328,6 +1337,10 @@ func (li *lexInterp) execBlock(stmts []ast.Stmt, st lexState) lexRes {
 	for _, s := range stmts {
 		var next []lexState
 		for _, c := range cur {
+			if c.brk {
+				next = append(next, c)
+				continue
+			}
 			n, d := li.exec(s, c)
 			next = append(next, n...)
 			done = append(done, d...)
